@@ -66,11 +66,14 @@ def getDomain (tgt : In) (coords : List In) (eout : List G) : Bool :=
   (tgt :: coords).all (fun i => allPos i && noDup (names (prepared i))) &&
     (descGetOp tgt coords eout (coords.map (fun _ => []))).isSome
 
+/-- `np.take(flat target, ravelled index)` at one assignment. -/
+def readLowered (kernel : List Nat → List Nat → List Nat) (op : Op) (target : List Int) (σ : List Nat) : Option Int :=
+  match addrLowered kernel op σ with
+  | some k => target[k]?
+  | none => none
+
 /-- The value-level lowering of `get_at` (`get_at_ravelled`): `np.take` of the flat target at the ravelled index. -/
 def lowerGet (kernel : List Nat → List Nat → List Nat) (op : Op) (target : List Int) : Option (List Int) :=
-  mapOpt (fun σ =>
-    match addrLowered kernel op σ with
-    | some k => target[k]?
-    | none => none) (assignments op.axes)
+  mapOpt (readLowered kernel op target) (assignments op.axes)
 
 end Einx.AtDesc
